@@ -217,7 +217,7 @@ def run_meta(c, tier):
         os.makedirs(wd)
         registry = os.path.join(wd, "registry.txt")
         walkers = []
-        key = "meta:nw%d:freq%d:%s" % (nw, freq, "states" if rfreq < 100000 else "nostates")
+        key = "meta:nw%d:freq%d:%s%s" % (nw, freq, "states" if rfreq < 100000 else "nostates", ":walker_restart_new_prefix" if ci % 3 == 2 else "")
         files = []
         try:
             for w in range(nw):
@@ -242,14 +242,57 @@ def run_meta(c, tier):
             damaged = {}
             # hostile schedule: random walker steps; between steps peer files may be truncated/restored
             order = []
+            # in the cases with periodic state files, the walker to be restarted is stopped right after a step at which it
+            # wrote its state (and restarted its hills file), having taken that step before its peers: the peers then hold
+            # the offset 0 into an empty hills file, and nothing but the list file tells them about the new file names
+            rwalker = rng.randrange(nw)
             for t in range(T + 1):
                 ws = list(range(nw))
                 rng.shuffle(ws)
+                if ci % 3 == 2 and rfreq < 100000 and t == rfreq:
+                    ws.remove(rwalker)
+                    ws.insert(0, rwalker)
                 order += ws
             faults_until = int(len(order) * fault_frac)
+            if ci % 3 == 2 and rfreq < 100000:
+                faults_until = min(faults_until, nw * (rfreq - 2 * freq))     # files whole around the restart
+            # a walker stopped and restarted from its state file under another output prefix (job chaining): it publishes
+            # new file names in its list file; its peers must follow
+            restart_at = None
+            if ci % 3 == 2:
+                restart_at = (rwalker, faults_until + rng.randrange(2, 6))
+            restarted = False
+            last_x, repeat_x = {}, {}
             for n_, w in enumerate(order):
+                if restart_at and not restarted and w == restart_at[0] and (
+                        (rfreq >= 100000 and n_ >= restart_at[1]) or (rfreq < 100000 and tstep[w] == rfreq + 1)):
+                    restarted = True
+                    # (the last evaluation may have been a probe elsewhere: the state must carry the value of the last step)
+                    ev_ = walkers[w].send((ctl.pos_line(d2=last_x[w]) + "\nevalc\nclearerr\n" if w in last_x else "") + "endrun\n")
+                    er = [q for q in ev_ if q["ev"] == "endrun"]
+                    if not er or er[0].get("rc"):
+                        raise RuntimeError("endrun failed before the restart: %s" % (er[0].get("errs") if er else "no event"))
+                    old_script = walkers[w].script_text()
+                    walkers[w].close()
+                    sub = os.path.join(wd, "w%d" % w)
+                    wk = interactive.Walker("plain", sub, log="w%db" % w)
+                    hdr = ctl.header("off", extra="dt 1.0\ntemp 300.0\nreplicas %s %d %d 1 0\nkeeplog on" % (wd, w, nw))
+                    ev_ = wk.send(hdr + "emit atoms off\nmodule\nprefix out2\nrfreq %d\nconfig <<EOC\n%sEOC\ninprefix out\ninit\n" % (
+                        rfreq, meta_config("r%d" % w, registry, freq)))
+                    cfg = [e for e in ev_ if e["ev"] == "config"]
+                    ini = [e for e in ev_ if e["ev"] == "init"]
+                    if (cfg and cfg[0]["rc"] != 0) or (ini and (ini[0].get("rc") or ini[0].get("err"))):
+                        raise RuntimeError("restart of walker %d rejected: %s %s" % (w, cfg[0].get("errs") if cfg else "", ini[0].get("errs") if ini else ""))
+                    wk.sent.insert(0, "# first process of this walker:\n" + "".join("# " + l + "\n" for l in old_script.splitlines()))
+                    walkers[w] = wk
+                    repeat_x[w] = last_x.get(w)
+                    # the restarted walker reads its peers' files from scratch: same allowance as after a file fault
+                    fault_at[w] = tstep[w] + 1
+                    c.bump("meta_walker_restarts_new_prefix")
                 t = tstep[w]
                 x = ctl.dy(rng, LO + 0.5, HI - 0.5, 4)
+                if repeat_x.get(w) is not None:
+                    x = repeat_x.pop(w)       # the first step of a restarted run repeats the last one, at the same coordinates
                 # file-system fault: during THIS step the walker sees only a prefix (cut at a random byte) of
                 # some of its peers' files, as if they were still being written; they are whole again right
                 # after the step (the owners do not run in between, so nothing is lost)
@@ -303,7 +346,8 @@ def run_meta(c, tier):
                     if m:
                         k = (m.group(1), int(m.group(2)))
                         received[w][k] = received[w].get(k, 0) + 1
-                tstep[w] += 1
+                tstep[w] = e["it"] + 1          # (the first step of a restarted walker repeats its last one)
+                last_x[w] = x
                 c.bump("meta_steps")
                 if damaged:
                     fault_at[w] = tstep[w]
